@@ -23,7 +23,9 @@ theorem parseTag_maxval' (ds : List Char) (n : Nat) (name : String) (h : parseUi
   unfold parseTag
   rw [splitOn_no_sep _ _ hc]
   simp only [List.foldl, tagClause_maxval none ds n h, tagFinish]
-  simp [show ¬ byteCount n = 0 by omega, show ¬ 8 < byteCount n by omega]
+  have hf := (finalChecks_plain true (byteCount n) 0 0 0).2 ⟨hr.1, hr.2, Nat.le_refl 0, rfl⟩
+  simp only [Int.ofNat_eq_natCast, Int.natCast_zero] at hf
+  simp [hf]
 
 theorem parseTag_size' (ds : List Char) (n : Nat) (name : String) (h : parseUint 32 ds = some n) (h1 : 1 ≤ n) (h8 : n ≤ 8) :
     parseTag ("size:".toList ++ ds) name = .ok (some { count := n, countSet := true, name := name }) := by
@@ -31,7 +33,9 @@ theorem parseTag_size' (ds : List Char) (n : Nat) (name : String) (h : parseUint
   unfold parseTag
   rw [splitOn_no_sep _ _ hc]
   simp only [List.foldl, tagClause_size none ds n h, tagFinish]
-  simp [show ¬ n = 0 by omega, show ¬ 8 < n by omega]
+  have hf := (finalChecks_plain true n 0 0 0).2 ⟨h1, h8, Nat.le_refl 0, rfl⟩
+  simp only [Int.ofNat_eq_natCast, Int.natCast_zero] at hf
+  simp [hf]
 
 theorem parseTag_minmax' (da db : List Char) (a b : Nat) (name : String)
     (ha : parseUint 64 da = some a) (hb : parseUint 64 db = some b) (hab : a ≤ b) :
@@ -43,7 +47,33 @@ theorem parseTag_minmax' (da db : List Char) (a b : Nat) (name : String)
   unfold parseTag
   rw [splitOn_append _ _ _ hca, splitOn_no_sep _ _ hcb]
   simp only [List.foldl, tagClause_minlen none da a ha, tagClause_maxlen _ db b hb, tagFinish]
-  simp [hab, show ¬ byteCount b = 0 by omega, show ¬ 8 < byteCount b by omega, show ¬ b < a by omega]
+  have hf := (finalChecks_plain true (byteCount b) a b 0).2 ⟨hr.1, hr.2, hab, rfl⟩
+  simp only [Int.ofNat_eq_natCast, Int.natCast_zero] at hf
+  simp [hf]
+
+theorem parseTag_size_bad' (ds : List Char) (n : Nat) (name : String) (h : parseUint 32 ds = some n) (hb : n < 1 ∨ 8 < n) :
+    parseTag ("size:".toList ++ ds) name = .error .structural := by
+  have hc : ',' ∉ "size:".toList ++ ds := no_comma_kw _ _ (by decide) (parseUint_no_comma _ _ _ h)
+  unfold parseTag
+  rw [splitOn_no_sep _ _ hc]
+  simp only [List.foldl, tagClause_size none ds n h, tagFinish]
+  have hf : ¬ (Gen.tagFinalChecks true true (Int.ofNat n) (Int.ofNat 0) (Int.ofNat 0) (Int.ofNat 0) = true) := by
+    rw [finalChecks_plain]; omega
+  simp at hf ⊢
+  simp [hf]
+
+theorem parseTag_minmax_inverted' (da db : List Char) (a b : Nat) (name : String)
+    (ha : parseUint 64 da = some a) (hb : parseUint 64 db = some b) (hab : b < a) :
+    parseTag ("minlen:".toList ++ da ++ ',' :: ("maxlen:".toList ++ db)) name = .error .structural := by
+  have hca : ',' ∉ "minlen:".toList ++ da := no_comma_kw _ _ (by decide) (parseUint_no_comma _ _ _ ha)
+  have hcb : ',' ∉ "maxlen:".toList ++ db := no_comma_kw _ _ (by decide) (parseUint_no_comma _ _ _ hb)
+  unfold parseTag
+  rw [splitOn_append _ _ _ hca, splitOn_no_sep _ _ hcb]
+  simp only [List.foldl, tagClause_minlen none da a ha, tagClause_maxlen _ db b hb, tagFinish]
+  have hf : ¬ (Gen.tagFinalChecks true true (Int.ofNat (byteCount b)) (Int.ofNat a) (Int.ofNat b) (Int.ofNat 0) = true) := by
+    rw [finalChecks_plain]; omega
+  simp at hf ⊢
+  simp [hf]
 
 /-- A documented size clause parses to an info without selector whose width is 1…8 bytes. -/
 theorem SizeTag.parse {t : List Char} (h : SizeTag t) (name : String) :
@@ -74,7 +104,9 @@ theorem parseTag_selector_val' (s dv : List Char) (v : Nat) (name : String) (hs 
   unfold parseTag
   rw [splitOn_append _ _ _ hca, splitOn_no_sep _ _ hcb]
   simp only [List.foldl, tagClause_selector none s, tagClause_val _ dv v hv, tagFinish]
-  simp [hne]
+  have hf := finalChecks_selector 0 0 v
+  simp only [Int.ofNat_eq_natCast, Int.natCast_zero] at hf
+  simp [hne, hf]
 
 /-- a defined type whose underlying type is (eventually) `uint64`: `tls.Enum` and everything declared from it -/
 def GoTy.enumKind : GoTy → Bool
